@@ -38,8 +38,24 @@ func main() {
 			fmt.Fprintln(os.Stderr, err)
 			os.Exit(2)
 		}
+		if *trace {
+			sym.SlowLog = func(sec float64, res sym.SatResult, extra []*sym.Term) {
+				fmt.Fprintf(os.Stderr, "SLOW %.1fs %s:", sec, res)
+				for _, t := range extra {
+					x := t.String()
+					if len(x) > 1500 {
+						x = x[:1500]
+					}
+					fmt.Fprintf(os.Stderr, " %s", x)
+				}
+				fmt.Fprintln(os.Stderr)
+			}
+		}
 		for _, e := range fs.Args() {
-			r := p.Run(e, sym.Options{Workers: *workers, TlimitMs: *tl, MaxPaths: *maxp, Trace: *trace})
+			r := p.Run(e, sym.Options{Workers: *workers, TlimitMs: *tl, MaxPaths: *maxp, Trace: *trace, KeepLog: *trace})
+			if *trace {
+				os.WriteFile("/tmp/gosym.smt2", []byte(r.Log), 0o644)
+			}
 			r.Log = ""
 			fl := r.Funcs
 			r.Funcs = nil
